@@ -31,6 +31,10 @@ func runC17(c *an.Ctx) {
 	r17h(c)
 	r17i(c)
 	r17j(c)
+	// shared with C16: Kill walks the device down to DONE step by step and stops on an error; a failed step that is
+	// reported without error (its error dropped, cleared, or replaced by a successful rollback's) makes Kill repeat the
+	// same step for ever - no signal is sent and no terminal status follows
+	c.As(map[string]string{"R16c": "R17l", "R16f": "R17k", "R16d": "R17m"}, func() { r16cd(c) })
 }
 
 const exPkg = "executor/executable"
